@@ -61,6 +61,7 @@ type env struct {
 	work     *node // inside a write tx
 	validOps int
 	written  []string
+	tops     []string // top-level names ever created in this sequence (also in rolled-back transactions)
 }
 
 func validName(s string) bool { return len(s) > 0 && len(s) <= 256 && !strings.Contains(s, "_") }
@@ -117,6 +118,7 @@ func (e *env) reset() {
 	e.shadow = newNode()
 	e.work = nil
 	e.written = nil
+	e.tops = nil
 }
 
 func (e *env) dbdir() string { return filepath.Join(e.dir, fmt.Sprintf("db%d", e.seq)) }
@@ -243,6 +245,7 @@ func (e *env) apply(line string) string {
 		if e.work.subs[string(name)] == nil {
 			e.work.subs[string(name)] = newNode()
 		}
+		e.tops = append(e.tops, string(name))
 		return e.addHandle(b, []string{string(name)})
 	case "tnames":
 		var ns []string
@@ -496,12 +499,15 @@ func (e *env) genOp() string {
 		}
 	}
 	nh := len(e.handles)
-	if nh == 0 || r.Intn(12) == 0 {
+	if nh == 0 || r.Intn(10) == 0 {
 		if e.mode == "w" && r.Intn(2) == 0 {
 			return "ctop " + hx.Hex(e.genName())
 		}
 		if r.Intn(4) == 0 {
 			return "tnames"
+		}
+		if len(e.tops) > 0 && r.Intn(10) < 7 {
+			return "top " + hx.Hex([]byte(e.tops[r.Intn(len(e.tops))]))
 		}
 		return "top " + hx.Hex(e.genName())
 	}
@@ -528,7 +534,7 @@ func (e *env) genOp() string {
 		}
 	}
 	switch {
-	case x < 6:
+	case x < 5:
 		return "commit"
 	case x < 9:
 		return "rollback"
@@ -586,6 +592,30 @@ func main() {
 				for i := 0; i < 6+h.Rng.Intn(10); i++ {
 					op := "put " + strconv.Itoa(h.Rng.Intn(len(e.handles))) + " " + hx.Hex(e.genKey()) + " " + hx.Hex([]byte(valPool[h.Rng.Intn(2)]))
 					h.Emit(op, e.apply(op))
+				}
+				if h.Rng.Intn(2) == 0 {
+					h.Emit("commit", e.apply("commit"))
+				}
+			}
+			if len(e.handles) == 0 && e.mode == "" && h.Rng.Intn(6) == 0 {
+				// deep nesting: depth numerals change width at 10
+				pre := []string{"begin", "ctop " + hx.Hex([]byte("d"))}
+				for _, op := range pre {
+					h.Emit(op, e.apply(op))
+				}
+				cur := 0
+				for d := 2; d <= 12; d++ {
+					for _, nm := range []string{"ab", "ac", "a"} {
+						op := "new " + strconv.Itoa(cur) + " " + hx.Hex([]byte(nm))
+						h.Emit(op, e.apply(op))
+					}
+					cur = len(e.handles) - 1 // descend into "a"
+					if d >= 9 {
+						for _, hid := range []int{len(e.handles) - 3, len(e.handles) - 2} {
+							op := "put " + strconv.Itoa(hid) + " " + hx.Hex(e.genKey()) + " " + hx.Hex([]byte("v"+strconv.Itoa(hid)))
+							h.Emit(op, e.apply(op))
+						}
+					}
 				}
 				if h.Rng.Intn(2) == 0 {
 					h.Emit("commit", e.apply("commit"))
